@@ -242,6 +242,27 @@ func (t *Task) Delete(pg wpg.Conn, n uint64) error {
 	if err != nil {
 		return fmt.Errorf("deleting block from task table: %w", err)
 	}
+	// The deleted position may have been written by a batch of
+	// several blocks. Rows of every block above the position that
+	// remains (all rows when none remains) must go with it.
+	const pq = `
+		select num
+		from shovel.task_updates
+		where src_name = $1
+		and ig_name = $2
+		order by num desc
+		limit 1
+	`
+	var prev uint64
+	err = pg.QueryRow(t.ctx, pq, t.srcName, t.destConfig.Name).Scan(&prev)
+	switch {
+	case errors.Is(err, pgx.ErrNoRows):
+		n = 0
+	case err != nil:
+		return fmt.Errorf("querying for previous position: %w", err)
+	default:
+		n = prev + 1
+	}
 	err = t.dests[0].Delete(t.ctx, pg, n)
 	if err != nil {
 		return fmt.Errorf("deleting block: %w", err)
